@@ -324,6 +324,12 @@ def msg_ids() -> st.SearchStrategy[int]:
     return st.one_of(st.integers(0, 300), st.sampled_from([2**31 - 1, 2**31, 127, 128, 255, 256, 65535, 65536]), ints())
 
 
+def _long(elem: t.Any, small: t.Any) -> t.Any:
+    """Mostly the small list strategy; sometimes a long run of one element (list lengths crossing 2^7/2^8 and beyond)."""
+    long_run = st.tuples(st.sampled_from([64, 127, 128, 129, 255, 256, 300]), elem).map(lambda ne: [ne[1]] * ne[0])
+    return st.integers(0, 15).flatmap(lambda k: long_run if k == 0 else small)
+
+
 def message(kinds: t.Optional[t.Sequence[str]] = None, big: bool = False, filt: t.Any = None, ids: t.Any = None) -> st.SearchStrategy[t.Any]:
     F = filt if filt is not None else st.one_of(filters(), filters(), deep_filter((7, 40)))
     ID = ids if ids is not None else msg_ids()
@@ -346,11 +352,13 @@ def message(kinds: t.Optional[t.Sequence[str]] = None, big: bool = False, filt: 
             time=st.one_of(st.just(0), nonneg_ints(), ints()),
             typesOnly=st.booleans(),
             filter=F,
-            attributes=st.lists(text(), max_size=4),
+            attributes=_long(st.sampled_from(["cn", "*", "1.1", "objectClass"]), st.lists(text(), max_size=4)),
         ),
-        "searchResEntry": dict(name=T, attributes=st.lists(st.tuples(text(), st.lists(O, max_size=3)), max_size=4)),
+        "searchResEntry": dict(name=T, attributes=_long(
+            st.tuples(st.sampled_from(["cn", "member"]), st.one_of(st.lists(O, max_size=2), st.just([b"v"] * 200))),
+            st.lists(st.tuples(text(), st.lists(O, max_size=3)), max_size=4))),
         "searchResDone": dict(result=results(big)),
-        "searchResRef": dict(uris=st.lists(text(), max_size=4)),
+        "searchResRef": dict(uris=_long(st.sampled_from(["ldap://a/dc=x", ""]), st.lists(text(), max_size=4))),
         "extendedReq": dict(name=text(), value=st.none() | O),
         "extendedResp": dict(result=results(big), name=st.none() | text(), value=st.none() | O),
     }
